@@ -6,6 +6,7 @@ import (
 	"sort"
 	"strconv"
 	"strings"
+	"time"
 
 	"verifsim/kernel"
 	"verifsim/simnet"
@@ -254,6 +255,10 @@ type ClientItem struct {
 	SentStep  int
 	Sent      bool
 	CloseAfter bool // client closes its end after sending this item
+	// SplitAt > 0: the first SplitAt bytes are written as soon as the item may be sent
+	// (pipelined), the rest only once every earlier response has been received.
+	SplitAt  int
+	partSent bool
 }
 
 // Client is a controller-driven raw client of the proxy.
@@ -273,11 +278,14 @@ type Client struct {
 	closedSelf bool
 	// RespStep[i] is the step at which the i-th final response completed.
 	RespStep []int
+	// LastSend / LastResp are simulated times of the last write and last completed response.
+	LastSend time.Duration
+	LastResp time.Duration
 }
 
 // NewClient connects a raw client to the listener.
 func NewClient(k *kernel.K, l *simnet.Listener, name, fromHost string) *Client {
-	c := &Client{k: k, Name: name, P: wire.NewRespParser()}
+	c := &Client{k: k, Name: name, P: wire.NewRespParser(), LastResp: k.Now()}
 	c.C = l.Connect(name, fromHost)
 	if c.C == nil {
 		return c
@@ -287,6 +295,7 @@ func NewClient(k *kernel.K, l *simnet.Listener, name, fromHost string) *Client {
 		c.P.Feed(b)
 		for i := before; i < len(c.P.Final()); i++ {
 			c.RespStep = append(c.RespStep, k.StepN)
+			c.LastResp = k.Now()
 		}
 	}, func() {
 		c.SawEOF = true
@@ -295,6 +304,7 @@ func NewClient(k *kernel.K, l *simnet.Listener, name, fromHost string) *Client {
 		c.P.End()
 		for i := before; i < len(c.P.Final()); i++ {
 			c.RespStep = append(c.RespStep, k.StepN)
+			c.LastResp = k.Now()
 		}
 	}, func() {
 		c.SawRST = true
@@ -339,6 +349,18 @@ func (c *Client) expected() int {
 	return n
 }
 
+// Idle reports whether the client has no exchange in flight (everything sent was answered, no
+// partially written request).
+func (c *Client) Idle() bool {
+	if !c.Alive() {
+		return true
+	}
+	if c.next < len(c.Script) && c.Script[c.next].partSent {
+		return false
+	}
+	return len(c.P.Final()) >= c.expected() && c.P.Cur == nil
+}
+
 // NextIndex returns the index of the next unsent item.
 func (c *Client) NextIndex() int { return c.next }
 
@@ -347,22 +369,40 @@ func (c *Client) canSend() bool {
 		return false
 	}
 	it := c.Script[c.next]
+	caughtUp := len(c.P.Final()) >= c.expected()
+	if it.SplitAt > 0 && it.SplitAt < len(it.Raw) {
+		if !it.partSent {
+			return it.Pipelined || caughtUp
+		}
+		return caughtUp
+	}
 	if it.Pipelined {
 		return true
 	}
-	return len(c.P.Final()) >= c.expected()
+	return caughtUp
 }
 
-// SendNext writes the next scripted item.
+// SendNext writes the next scripted item (or the next part of it).
 func (c *Client) SendNext() {
 	it := c.Script[c.next]
+	if it.SplitAt > 0 && it.SplitAt < len(it.Raw) && !it.partSent {
+		it.partSent = true
+		c.C.Inject(it.Raw[:it.SplitAt])
+		c.LastSend = c.k.Now()
+		return
+	}
 	c.next++
 	it.Sent = true
 	it.SentStep = c.k.StepN
 	if it.Method != "" {
 		c.P.Expect(it.Method)
 	}
-	c.C.Inject(it.Raw)
+	if it.partSent {
+		c.C.Inject(it.Raw[it.SplitAt:])
+	} else {
+		c.C.Inject(it.Raw)
+	}
+	c.LastSend = c.k.Now()
 	if it.CloseAfter {
 		c.closedSelf = true
 		c.C.Close()
@@ -418,6 +458,8 @@ type OConn struct {
 	SawRST   bool
 	Replies  []*Reply
 	FirstByteStep int
+	// StartSteps[i] is the step at which the first byte of the i-th request arrived.
+	StartSteps []int
 }
 
 // Origin is a controller-driven raw origin server.
@@ -440,6 +482,9 @@ func NewOrigin(k *kernel.K, n *simnet.Net, addr string, plan func(oc *OConn, req
 		c.OnData(func(b []byte) {
 			if oc.FirstByteStep < 0 {
 				oc.FirstByteStep = k.StepN
+			}
+			if oc.P.Idle() {
+				oc.StartSteps = append(oc.StartSteps, k.StepN)
 			}
 			oc.P.Feed(b)
 		}, func() { oc.SawEOF = true; oc.P.End() }, func() { oc.SawRST = true })
